@@ -4,6 +4,7 @@ PacketScanObs / AppScanObs (Take charged exactly once per frame / probe, never o
 import os
 import vf
 from checks import c07, c08
+from checks import wire_tier as wt
 
 LEVEL = "model_checking"
 LEVEL_TEXT = ("TLC checks RateLimit for per-request 2..3 ticks, slack b 0..2, lateness 0..1, 6 probes, every timing: ChargedOnce and Spacing hold and the bound "
@@ -65,3 +66,6 @@ def run(ctx):
         rest = rest[:info["index"] - 1] + rest[info["index"]:]
     for e in events[:2]:
         ctx.sample({k: (v if k != "times" else v[:20]) for k, v in e.items()})
+    # socket-level tier: --rate wiring of the packet commands (limiter built in startPacketScanEngine), capture timestamps
+    n3, rej = wt.run_wire(ctx, select=lambda s: "rate" in s["name"], label="c15w", focus="rate")
+    wt.report(ctx, "C15", rej)
